@@ -45,6 +45,11 @@ func logLine(format string, a ...interface{}) {
 	}
 }
 
+// selfCreated: temporary files this process made itself through CreateTemp. Moving, changing or removing
+// them takes nothing from the user (an atomic write-then-rename is a legitimate way to produce a generated
+// file); what they are renamed TO is still checked, and debris left behind shows in the final tree.
+var selfCreated = map[string]bool{}
+
 // Owned: may the generator remove / overwrite / create this path?
 func Owned(path string) bool {
 	b := filepath.Base(path)
@@ -73,7 +78,7 @@ func monitor(op, path string) {
 			}
 			return
 		}
-		if !Owned(path) {
+		if !Owned(path) && !selfCreated[filepath.Clean(path)] {
 			logLine("VIOLATION %s %s is not a generated file or the manifest", op, path)
 		}
 	case "write", "create", "rename-to":
@@ -247,11 +252,17 @@ func Symlink(o, n string) error { return os.Symlink(o, n) }
 func Link(o, n string) error    { return os.Link(o, n) }
 
 func CreateTemp(dir, pattern string) (*os.File, error) {
-	return os.CreateTemp(dir, "gensim-tmp"+pattern)
+	if err := step("createtemp", filepath.Join(dir, pattern), false, nil); err != nil {
+		return nil, err
+	}
+	f, err := os.CreateTemp(dir, "gensim-tmp"+pattern)
+	if err == nil {
+		selfCreated[filepath.Clean(f.Name())] = true
+	}
+	crashAfter()
+	return f, err
 }
-func IoutilTempFile(dir, pattern string) (*os.File, error) {
-	return os.CreateTemp(dir, "gensim-tmp"+pattern)
-}
+func IoutilTempFile(dir, pattern string) (*os.File, error) { return CreateTemp(dir, pattern) }
 func MkdirTemp(dir, pattern string) (string, error)     { return os.MkdirTemp(dir, pattern) }
 func IoutilTempDir(dir, pattern string) (string, error) { return os.MkdirTemp(dir, pattern) }
 
